@@ -55,7 +55,7 @@ def run(ctx):
                "arithmetic-overflow asserts are debug-build panics only; listed per function under C09.ovf")
     entries, sites, D = decode_closure(F, G)
     R0 = ctx.rule("C09.entries", "K1", "decode entry inventory: workspace Readable impls, unpack_columns, read_from_buffer call sites")
-    R0.floor(len(entries), 25, "readable-impls", "workspace `Readable::read_from` impls + unpack_columns")
+    R0.floor(len(entries), 15, "readable-impls", "workspace `Readable::read_from` impls + unpack_columns")
     want_sites = {"klukai_types::broadcast::UniPayload", "klukai_types::broadcast::BiPayload", "klukai_types::sync::SyncMessage"}
     got = {c.self_ty for b, c in sites}
     for w in sorted(want_sites):
@@ -584,7 +584,7 @@ def shape_rule(ctx):
         if "_" in rs:
             R.require(rs["_"] == [] or rs["_"] == ["u8"], suffix + ".default", r.where(), "%s: unknown tags decode nothing further" % suffix,
                       fail_msg="%s: the default arm of the reader decodes data (%s)" % (suffix, rs["_"]))
-    R.floor(found, 6, "hand-codecs", "hand-written reader/writer pairs located")
+    R.floor(found, 4, "hand-codecs", "hand-written reader/writer pairs located")
 
 
 def len_rule(ctx, bodies=None, R=None):
@@ -618,7 +618,7 @@ def len_rule(ctx, bodies=None, R=None):
                           fail_msg="%s: the element loop runs `%s..%s` where the bound comes from %s, not directly from the decoded length: the reader consumes a different number of elements than the writer emitted (frame desynchronises)"
                                    % (b.impl_self or b.id, (lo_k or {}).get("v", "?"), b.lname(hi[0]), cm.origin_summary(org)))
     if bodies is None:
-        R.floor(n, 6, "reader-loops", "count-driven reader loops in hand-written codecs")
+        R.floor(n, 4, "reader-loops", "count-driven reader loops in hand-written codecs")
     # writer side: every written usize length is `.len()` of a collection of self
     wn = 0
     wr = [b for b in F.bodies.values() if b.impl_trait == WRITABLE and b.id.endswith("::write_to") and not b.mac] if bodies is None else []
@@ -632,7 +632,7 @@ def len_rule(ctx, bodies=None, R=None):
             R.require(ok, "%s:write-len#%d" % (b.impl_self, wn), c.where(), "the written count is a collection's len()",
                       fail_msg="%s writes a count that is not `.len()` of the collection it serialises: %s" % (b.impl_self, cm.origin_summary(org)))
     if bodies is None:
-        R.floor(wn, 6, "writer-lens", "length prefixes written by hand-written codecs")
+        R.floor(wn, 4, "writer-lens", "length prefixes written by hand-written codecs")
 
 
 def _norm(seq):
